@@ -114,6 +114,9 @@ def replay(prop, payload):
         run_vh(["budget-replay", "--case", cs, "--out", tr])
         v = validate_simple(res, prop, "Budget.tla", "Budget.cfg", tr, cs, "replay", "budget", nshards=1,
                             boundary=lambda e: e.get("ev") in ("Long", "Panic"))
+    elif kind == "centrality":
+        run_vh(["centrality-replay", "--case", cs, "--out", tr])
+        v = validate_simple(res, prop, "Trace_Centrality.tla", "Trace_Centrality.cfg", tr, cs, "replay", "centrality", nshards=1)
     elif kind == "direction":
         run_vh(["direction-replay", "--case", cs, "--out", tr])
         v = validate_simple(res, prop, "Trace_Direction.tla", "Trace_Direction.cfg", tr, cs, "replay", "direction", nshards=1)
@@ -268,7 +271,40 @@ def c06(tier, seed):
         res.violation(f"dist-s{seed}", {"kind": "dist", "dist": r.get("dist"), "env": env, "seed": seed, "tier": tier},
                       f"distributional clause failed: [n, nonSolved, overAll, overSym, nsym, maxit] = {r.get('dist')} (kfail={kfail})")
     res.coverage["direction"] = _direction(res, tier, seed, wd)
+    res.coverage["centrality"] = _centrality(res, tier, seed, wd)
     return res
+
+
+def _centrality(res, tier, seed, wd):
+    """the barrier line search of the dual scaling strategy: protocol (Centrality.tla, every pass/fail oracle) and, on recorded
+    runs, protocol + content of every probe (Trace_Centrality.tla)"""
+    from vlib import fdec
+    mc = run_mc("Centrality.tla", "MC_Centrality.cfg", workers=2, timeout=600, coverage=False, name="MC_Centrality")
+    tr, cs = [os.path.join(wd, "centrality" + x) for x in (".ndjson", ".cases.ndjson")]
+    cnt = 250 if tier == "quick" else 10000
+    p = run_vh(["centrality", "--seed", seed, "--count", cnt, "--out", tr, "--cases", cs], timeout=4 * 3600)
+    meta = json.loads(p.stdout.strip().splitlines()[-1])
+    v = validate_trace("Trace_Centrality.tla", "Trace_Centrality.cfg", tr, nshards=10, boundary=lambda e: True)
+    if not v["ok"]:
+        cases = {c["run"]: c for c in read_ndjson(cs)}
+        groups = {}
+        for rj in v["rejects"]:
+            e = rj["event"] or {}
+            bad = lambda pr: not fdec(pr[0]) <= fdec(pr[1])
+            content = any((not q.get("skip")) and (bad(q["mu"]) or bad(q["total"]) or any(bad(t) for t in q["sym_terms"])) for q in e.get("probes", []))
+            cls = "probe_content" if content else "protocol"
+            groups.setdefault(cls, []).append(e)
+        for cls, evs in groups.items():
+            e = evs[0]
+            res.violation("centrality-" + cls, {"kind": "centrality", "prop": "C06", "case": cases.get(e.get("run")),
+                                                 "event": {k: e[k] for k in e if k not in ("probes", "expected_alpha")}, "count": len(evs)},
+                          f"{len(evs)} centrality line searches violate {cls} (first: run={e.get('run')} pass={e.get('pass')})", key="centrality:" + cls)
+    if v["ok"] and not (meta["searches"] > 0 and meta["runs_with_soc"] > 0 and meta["runs_with_nonneg"] > 0):
+        raise ToolError(f"centrality recorder did not exercise the search: {meta}")
+    return {"mc_states": mc["states"], "events": v["events"], "meta": meta,
+            "rule": "one event = one call of backtrack_step_to_barrier (combined step under dual scaling) on planted problems with a generalised power "
+                    "cone among zero / nonnegative / second-order / PSD / exponential / power cones: geometric probe sequence bit for bit, first "
+                    "passing probe returned (or the untested 51st value), mu(alpha), scalar part, barrier term of every symmetric cone and the total of every probe"}
 
 
 def _direction(res, tier, seed, wd):
